@@ -34,5 +34,11 @@ func (v *RemoveServicesValidator) Validate(p patch.Patch) error {
 		return fmt.Errorf("invalid remove services value: %s", err.Error())
 	}
 
-	return validateIds(document.StringArray(genericArr))
+	ids := document.StringArray(genericArr)
+
+	if err := allEntriesRead(len(ids), genericArr, "service ids", "strings"); err != nil {
+		return err
+	}
+
+	return validateIds(ids)
 }
